@@ -3,6 +3,7 @@ from checks.common import Ctx
 from sa.report import Check
 from sa.rules import backend as B
 from sa.rules import cpp_rules as C
+from sa.rules import maybe_rules as MB
 
 
 def main(tier):
@@ -18,6 +19,7 @@ def main(tier):
             "Ok() and both size tests, and the structure's TryToCopyFrom is `other.Ok() && backing_.TryToCopyFrom(…, "
             "other's intrinsic size)` (R-COPY). Not decided: byte-level post-conditions, symmetry on arbitrary buffers."))
     chk.run("R-EQLOCKSTEP", B.eqlockstep, cx.repo, floor=4)
+    chk.run("R-EQTABLE", MB.eqtable, cx.cpp, cx.templates, floor=26)
     chk.run("R-SIBLING", C.sibling, cx.cpp, floor=80, control=lambda: cx.cpp_control)
     chk.run("R-TWIN", C.twin, cx.cpp, floor=40)
     chk.run("R-IFACE", C.iface, cx.cpp, cx.templates, floor=80)
